@@ -99,3 +99,10 @@ CHECKS["C04"] = dict(
     design_ref="DESIGN.md 3 C04",
     note="Caller-frame expansion, duplicate order, recursion and the missing-template link need the whole expander and are outside; numeric comparison in #ifeq/#switch is a recorded finding; expand_recurse is the identity in the expand_args slice.",
 )
+CHECKS["C06"] = dict(
+    engine="E1 CrossHair; z3 (finite query); AST fact",
+    technique="CrossHair symbolic execution of lua_loader's path sanitiser (recording path stub) and of the attribute filter closure sliced from initialize_lua; z3 query over the retained-module / block-list tables read from the current Lua source and a fresh runtime's package.loaded",
+    text="Python-side gates only: for every module name within the bounds the loader probes only relative paths without '..' components; the attribute filter refuses underscore names, non-str names and every attribute of the context-bound partial helpers for all names up to 4 characters; no capability library the host keeps in package.loaded is served by require(); LuaRuntime is constructed with register_eval=False and the filter. What Lua code can do INSIDE the VM is not decided.",
+    design_ref="DESIGN.md 3 C06",
+    note="The environment whitelist, metatables and everything reachable by running Lua are outside; replays boot the real sandbox with a stub ustring module.",
+)
